@@ -2,6 +2,7 @@
 (* Which clients a TLS configuration lets through (C18).  mode: "server"     *)
 (* (server authentication only) | "mtls" (client certificate required and    *)
 (* verified against the configured CA).  Client kinds: "valid", "nocert",    *)
-(* "wrongca" (certificate from another CA), "plaintext", "garbage", "silent" *)
-HandshakeOKFor(mode, kind) == kind = "valid" \/ (mode = "server" /\ kind \in {"nocert", "wrongca"})
+(* "wrongca" / "earlierca" (certificate from another CA / from a CA the same *)
+(* package created earlier), "plaintext", "garbage", "silent"                *)
+HandshakeOKFor(mode, kind) == kind = "valid" \/ (mode = "server" /\ kind \in {"nocert", "wrongca", "earlierca"})
 ==============================================================================
